@@ -295,16 +295,14 @@ structure Problem where
   atomOk : Nat → Nat → Bool
   bondOk : Nat → Nat → Nat → Nat → Bool
 
-/-- `candidate = searching_scope.intersection(candidate)` when `if searching_scope:` is true, else the component -/
+/-- `candidate = searching_scope.intersection(candidate)` when `if searching_scope is not None:`, else the component -/
 def restrict (scope : Option (List Nat)) (cand : List Nat) : List Nat :=
   match scope with
   | none => cand
-  | some s => if s.isEmpty then cand else cand.filter (s.contains ·)   -- `if searching_scope:` is False for an empty set
+  | some s => cand.filter (s.contains ·)
 
-def scopeActive (scope : Option (List Nat)) : Bool :=
-  match scope with
-  | none => false
-  | some s => !s.isEmpty
+/-- `searching_scope is not None` (an empty scope is a scope: fixed in /repo 487cf59, before that `if searching_scope:`) -/
+def scopeActive (scope : Option (List Nat)) : Bool := scope.isSome
 
 def mkEnv (p : Problem) (cl : Closures) (lq : List Step) (cand : List Nat) : Env :=
   { lq := lq, cl := cl, oAtoms := p.t.atoms, t := p.t, scope := fun n => cand.contains n,
